@@ -34,7 +34,7 @@ OK == <<"ok", "">>
 \* F   : thread -> final clock (for join);  G : register -> clock of the hand-over
 InitMem == [ C |-> [t \in TS |-> [i \in TS |-> IF i = t THEN 1 ELSE 0]], P |-> [t \in TS |-> Zero],
              RF |-> [t \in TS |-> Zero], V |-> <<>>, W |-> <<>>, R |-> <<>>, F |-> <<>>, G |-> <<>>,
-             ords |-> {} ]
+             ords |-> {}, owner |-> <<>>, inside |-> <<>>, stale |-> <<>> ]
 
 View(m, x) == IF x \in DOMAIN m.V THEN m.V[x] ELSE Zero
 Tick(m, t) == [m EXCEPT !.C[t][t] = @ + 1]
@@ -103,13 +103,38 @@ UseM(m, e)  == IF <<e.k, e.r>> \in DOMAIN m.G THEN [m EXCEPT !.C[e.t] = Join(@, 
 GoneM(m, e) == [m EXCEPT !.F = (e.t :> m.C[e.t]) @@ @]
 JoinM(m, e) == IF e.u \in DOMAIN m.F THEN [m EXCEPT !.C[e.t] = Join(@, m.F[e.u])] ELSE m
 
+\* ---- per-thread bookkeeping (C11): nodes are owned by one thread at a time; anybody else may touch the
+\* transaction state of a node (control, helping slot, address, space offer) only while registered as a writer
+\* (active_writers), and a node changes hands only when no writer that entered before its cool-down is inside
+OwnerOf(m, n) == IF n \in DOMAIN m.owner THEN m.owner[n] ELSE -1
+InsideOf(m, n) == IF n \in DOMAIN m.inside THEN m.inside[n] ELSE {}
+StaleOf(m, n) == IF n \in DOMAIN m.stale THEN m.stale[n] ELSE {}
+NodeV(m, e) ==
+  CASE e.r \in {"ctrl", "space", "addr", "hslot"} /\ OwnerOf(m, e.n) # e.t /\ e.t \notin InsideOf(m, e.n)
+         -> <<"C11", "a thread touched the transaction state of another thread's bookkeeping without being registered as a writer in it">>
+    [] e.r = "inuse" /\ e.k = "cas" /\ e.ok /\ e.a0 = 0 /\ e.a1 = 1 /\ StaleOf(m, e.n) # {}
+         -> <<"C11", "bookkeeping was handed to a new thread while a writer that entered before its cool-down is still inside">>
+    [] e.r = "inuse" /\ e.k = "cas" /\ e.ok /\ e.a0 = 0 /\ e.a1 = 1 /\ OwnerOf(m, e.n) # -1
+         -> <<"C11", "bookkeeping claimed by a second thread while the first still owns it">>
+    [] OTHER -> OK
+NodeM(m, e) ==
+  CASE e.r = "head" /\ e.k = "casw" /\ e.ok -> [m EXCEPT !.owner = ((e.a1 - 1) :> e.t) @@ @]
+    [] e.r = "inuse" /\ e.k = "cas" /\ e.ok /\ e.a0 = 0 /\ e.a1 = 1 -> [m EXCEPT !.owner = (e.n :> e.t) @@ @]
+    [] e.r = "inuse" /\ e.k = "swap" /\ e.a0 = 2
+         -> [m EXCEPT !.owner = (e.n :> -1) @@ @, !.stale = (e.n :> (InsideOf(m, e.n) \ {e.t})) @@ @]
+    [] e.r = "wr" /\ e.k = "add" -> [m EXCEPT !.inside = (e.n :> (InsideOf(m, e.n) \cup {e.t})) @@ @]
+    [] e.r = "wr" /\ e.k = "sub" -> [m EXCEPT !.inside = (e.n :> (InsideOf(m, e.n) \ {e.t})) @@ @,
+                                               !.stale = (e.n :> (StaleOf(m, e.n) \ {e.t})) @@ @]
+    [] OTHER -> m
+
 MVerdict(m, e) ==
-  CASE e.e = "deref"   -> DerefV(m, e)
+  CASE e.e = "at"      -> NodeV(m, e)
+    [] e.e = "deref"   -> DerefV(m, e)
     [] e.e = "destroy" -> DestroyV(m, e)
     [] OTHER -> OK
 
 MEffect(m, e) ==
-  CASE e.e = "at"      -> Atomic(m, e)
+  CASE e.e = "at"      -> NodeM(Atomic(m, e), e)
     [] e.e = "inc"     -> IncM(m, e)
     [] e.e = "dec"     -> DecM(m, e)
     [] e.e = "alloc"   -> AllocM(m, e)
